@@ -181,7 +181,7 @@ def c15_worker(res: Result, i: int, n: int) -> None:
     classes = _my_classes(i, n)
     ops: dict[str, int] = {}
     distinct: set[bytes] = set()
-    per = 5 if res.tier == "quick" else 120
+    per = 8 if res.tier == "quick" else 400
     for cls in classes:
         check_class(res, cls)
         spec = describe.spec_from_class(cls)
